@@ -133,7 +133,7 @@ static struct rg_world mk_world(int32_t len_min, int32_t len_max, int32_t len_dm
 
 #define PRESENT(p, l) ((p) != NULL && (l) > 0)
 
-#if CQV_T <= T_F64
+#if CQV_T <= T_F64 || CQV_T == T_BOOL
 static val_t rd(const uint8_t *p) {
   val_t v; uint8_t *q = (uint8_t *)&v;
   for (unsigned i = 0; i < sizeof(val_t); i++) q[i] = p[i];
@@ -210,7 +210,8 @@ void h_rgm_numeric(void) {
  * beyond min_value_len / max_value_len bytes of a statistics field. */
 void h_rgm_numeric_anylen(void) {
   int32_t l1 = nondet_i32(), l2 = nondet_i32(), l3 = nondet_i32(), l4 = nondet_i32();
-  struct rg_world w = mk_world(l1, l2, l3, l4, nondet_unsigned());
+  unsigned present = nondet_unsigned();
+  struct rg_world w = mk_world(l1, l2, l3, l4, present);
   val_t *value = malloc(sizeof(val_t));
   __CPROVER_assume(value != NULL);
   int op = nondet_int();
@@ -301,8 +302,10 @@ int32_t carquet_reader_num_row_groups(const carquet_reader_t *reader) { return r
 void h_filter_row_groups(void) {
   const carquet_reader_t *reader = nondet_ptr();
   const void *value = nondet_ptr();
-  int32_t *out = nondet_ptr();
   int32_t col = nondet_i32(), vs = nondet_i32(), max = nondet_i32();
+  /* caller's array of exactly max entries (a typed object: cheap for the solver); garbage pointer when max <= 0 */
+  int32_t *out = max > 0 ? malloc(sizeof(int32_t) * (size_t)max) : nondet_ptr();
+  __CPROVER_assume(max <= 0 || out != NULL);
   int op = nondet_int();
   int32_t n = carquet_reader_filter_row_groups(reader, col, (carquet_compare_op_t)op, value, vs, out, max);
   if (n > 0) CQV_CANARY("filter returns a non-empty list");
